@@ -165,6 +165,19 @@ def assumption_scan():
     return out
 
 
+def guarded(unit, fn):
+    """Run one engine of a check.  An unsupported construct, lost anchor or internal error in THIS engine becomes one
+    undecided obligation instead of aborting the whole check, so that it can never mask a refutation by another engine."""
+    import traceback
+    try:
+        return fn()
+    except Undecided as ex:
+        return [Obligation(unit, unit, "engine", UNDECIDED, 0.0, str(ex)[:600])]
+    except Exception:
+        return [Obligation(unit, unit, "engine", UNDECIDED, 0.0,
+                           "internal error in this engine (not a verdict about the code): " + traceback.format_exc()[-500:])]
+
+
 def finish(prop, tier, seed, obligations, meta, t0, confirm=None):
     """Classify results, print lines, write evidence, return exit code.
 
